@@ -88,13 +88,29 @@ def appendOpt (o : Option (List Mod)) (l : List Mod) : Option (List Mod) :=
   | none => some l
   | some x => some (x ++ l)
 
+/-- `d.setdefault(i, []).extend(mods)` on an insertion-ordered dict -/
+def addAt (d : List (Int × List Mod)) (i : Int) (l : List Mod) : List (Int × List Mod) :=
+  match d with
+  | [] => [(i, l)]
+  | (k, v) :: r => if k = i then (k, v ++ l) :: r else (k, v) :: addAt r i l
+
 /-- `add_internal_mods({i: mods}, append=True)` -/
 def addInternal (d : Option (List (Int × List Mod))) (i : Int) (l : List Mod) : Option (List (Int × List Mod)) :=
   match d with
   | none => some [(i, l)]
-  | some d =>
-    if d.any (fun p => p.1 == i) then some (d.map (fun p => if p.1 == i then (p.1, p.2 ++ l) else p))
-    else some (d ++ [(i, l)])
+  | some d => some (addAt d i l)
+
+/-- one residue-targeted rule: its mods are added at every occurrence of the target -/
+def condenseRule (a : Annotation) (p : List Char × List Mod) : Annotation :=
+  if p.1 = nTerm || p.1 = cTerm then a
+  else (findAll p.1 a.seq).foldl (fun (a : Annotation) (i : Nat) => { a with internal := addInternal a.internal (i : Int) p.2 }) a
+
+/-- the body of `condense_static_mods` once the rules are parsed -/
+def condenseWith (a : Annotation) (map : List (List Char × List Mod)) : Annotation :=
+  let a := { a with static := none }
+  let a := match map.lookup nTerm with | some l => { a with nterm := appendOpt a.nterm l } | none => a
+  let a := match map.lookup cTerm with | some l => { a with cterm := appendOpt a.cterm l } | none => a
+  map.foldl condenseRule a
 
 /-- `condense_static_mods(inplace=True)` -/
 def condenseStatic (env : Env) (a : Annotation) : Except Err Annotation :=
@@ -102,12 +118,7 @@ def condenseStatic (env : Env) (a : Annotation) : Except Err Annotation :=
   | none => pure a
   | some st => do
     let map ← env.parseStatic st
-    let a := { a with static := none }
-    let a := match map.lookup nTerm with | some l => { a with nterm := appendOpt a.nterm l } | none => a
-    let a := match map.lookup cTerm with | some l => { a with cterm := appendOpt a.cterm l } | none => a
-    pure (map.foldl (fun (a : Annotation) (p : List Char × List Mod) =>
-      if p.1 = nTerm || p.1 = cTerm then a
-      else (findAll p.1 a.seq).foldl (fun (a : Annotation) (i : Nat) => { a with internal := addInternal a.internal (i : Int) p.2 }) a) a)
+    pure (condenseWith a map)
 
 /-! ### _pop_delta_mass_mods -/
 
